@@ -19,14 +19,88 @@ var stmtMacros = []struct{ tok, text string }{
 	{"br", "break"}, {"co", "continue"}, {"sw", "switch (var(V))"}, {"c1", "case 1:"}, {"c2", "case 2:"}, {"df", "default:"}, {"{", "{"}, {"}", "}"},
 }
 
-func checkStmtModel(c *Ctx) {
-	maxLen := 4
-	if !c.Quick() {
-		maxLen = 5
-	}
+// stmtFamily walks the macro-token family: every string of length <= maxLen, and the structured ones
+// (balanced braces, every block opener directly followed by "{" except the "while (cond)" that ends a
+// do...while) up to structMax (of length 8 every 8th).  Each string is compiled; each gets the tokens
+// (with the script's closing brace), whether it was rejected and the line of the error.
+func stmtFamily(c *Ctx, maxLen, structMax int, each func(id string, toks []string, isErr bool, eline int)) bool {
 	fam, ok := cachedGenModule(c, "GenChars", map[string]int{"MaxLen": maxLen, "NSym": len(stmtMacros)}, "chars.ndjson")
 	if !ok {
-		return
+		return false
+	}
+	one := func(id string, seq []int, opt bool) {
+		toks := make([]string, 0, len(seq)+1)
+		var texts []string
+		for _, x := range seq {
+			toks = append(toks, stmtMacros[x].tok)
+			texts = append(texts, stmtMacros[x].text)
+		}
+		toks = append(toks, "}")
+		src := "script S {\n    " + strings.Join(texts, "\n    ") + "\n}\n"
+		res := Compile(src, Opts{Optimize: opt})
+		isErr := res.Err != nil || res.Panic != ""
+		eline := 0
+		if res.PErr != nil {
+			eline = res.PErr.LineNumberStart
+		}
+		each(id, toks, isErr, eline)
+	}
+	for i, ln := range fam["chars.ndjson"] {
+		var w []int
+		if jsonUnmarshal([]byte(ln), &w) != nil {
+			c.Fatal("bad GenChars line")
+			return false
+		}
+		seq := make([]int, len(w))
+		for k, x := range w {
+			seq[k] = x - 1
+		}
+		one(fmt.Sprintf("m%d", i), seq, i%2 == 0)
+	}
+	openers := map[string]bool{"if": true, "elif": true, "else": true, "wh": true, "lp": true, "do": true, "sw": true}
+	nstruct := 0
+	var rec func(seq []int, depth int)
+	rec = func(seq []int, depth int) {
+		mustOpen := false
+		if k := len(seq); k > 0 {
+			last := stmtMacros[seq[k-1]].tok
+			mustOpen = openers[last] && !(last == "wh" && k >= 2 && stmtMacros[seq[k-2]].tok == "}")
+		}
+		if depth == 0 && len(seq) > maxLen && !mustOpen {
+			nstruct++
+			if len(seq) < 8 || sampled(nstruct, c.Seed, 8) {
+				one(fmt.Sprintf("s%d", nstruct), seq, nstruct%2 == 0)
+			}
+		}
+		if len(seq) == structMax {
+			return
+		}
+		for x, m := range stmtMacros {
+			switch {
+			case mustOpen && m.tok != "{":
+				continue
+			case m.tok == "{":
+				if len(seq) == 0 || !openers[stmtMacros[seq[len(seq)-1]].tok] {
+					continue
+				}
+				rec(append(append([]int{}, seq...), x), depth+1)
+			case m.tok == "}":
+				if depth > 0 {
+					rec(append(append([]int{}, seq...), x), depth-1)
+				}
+			default:
+				rec(append(append([]int{}, seq...), x), depth)
+			}
+		}
+	}
+	rec(nil, 0)
+	return true
+}
+
+func checkStmtModel(c *Ctx) {
+	maxLen, structMax := 4, 6
+	if !c.Quick() {
+		maxLen, structMax = 5, 8
 	}
 	var nd NDJSON
 	srcOf := map[string]string{}
@@ -54,105 +128,21 @@ func checkStmtModel(c *Ctx) {
 		nd = NDJSON{}
 		inBatch = 0
 	}
-	for i, ln := range fam["chars.ndjson"] {
-		var w []int
-		if jsonUnmarshal([]byte(ln), &w) != nil {
-			c.Fatal("bad GenChars line")
-			return
-		}
-		toks := make([]string, 0, len(w)+1)
-		var texts []string
-		for _, x := range w {
-			toks = append(toks, stmtMacros[x-1].tok)
-			texts = append(texts, stmtMacros[x-1].text)
-		}
-		toks = append(toks, "}")
-		src := "script S {\n    " + strings.Join(texts, "\n    ") + "\n}\n"
-		res := Compile(src, Opts{Optimize: i%2 == 0})
-		isErr := res.Err != nil || res.Panic != ""
+	ok := stmtFamily(c, maxLen, structMax, func(id string, toks []string, isErr bool, eline int) {
 		if !isErr {
 			accepted++
 		}
-		id := fmt.Sprintf("m%d", i)
 		srcOf[id] = strings.Join(toks, " ")
-		nd.Add(map[string]interface{}{"id": id, "toks": toks, "err": isErr})
+		nd.Add(map[string]interface{}{"id": id, "toks": toks, "err": isErr, "eline": eline})
 		n++
 		inBatch++
 		if inBatch >= 120000 {
 			flush()
 		}
+	})
+	if !ok {
+		return
 	}
-	// longer strings with structure: braces balanced, every block opener directly followed by "{" (except the
-	// "while (cond)" that ends a do...while): all of length 5..6 (7), and every 8th of length 8 when thorough
-	structMax := 6
-	if !c.Quick() {
-		structMax = 8
-	}
-	openers := map[string]bool{"if": true, "elif": true, "else": true, "wh": true, "lp": true, "do": true, "sw": true}
-	nstruct := 0
-	var rec func(seq []int, depth int)
-	emit := func(seq []int) {
-		if len(seq) <= maxLen {
-			return // already in the unconstrained family
-		}
-		if len(seq) == 8 && !sampled(nstruct, c.Seed, 8) {
-			nstruct++
-			return
-		}
-		nstruct++
-		toks := make([]string, 0, len(seq)+1)
-		var texts []string
-		for _, x := range seq {
-			toks = append(toks, stmtMacros[x].tok)
-			texts = append(texts, stmtMacros[x].text)
-		}
-		toks = append(toks, "}")
-		src := "script S {\n    " + strings.Join(texts, "\n    ") + "\n}\n"
-		res := Compile(src, Opts{Optimize: nstruct%2 == 0})
-		isErr := res.Err != nil || res.Panic != ""
-		if !isErr {
-			accepted++
-		}
-		id := fmt.Sprintf("s%d", nstruct)
-		srcOf[id] = strings.Join(toks, " ")
-		nd.Add(map[string]interface{}{"id": id, "toks": toks, "err": isErr})
-		n++
-		inBatch++
-		if inBatch >= 120000 {
-			flush()
-		}
-	}
-	rec = func(seq []int, depth int) {
-		mustOpen := false
-		if k := len(seq); k > 0 {
-			last := stmtMacros[seq[k-1]].tok
-			mustOpen = openers[last] && !(last == "wh" && k >= 2 && stmtMacros[seq[k-2]].tok == "}")
-		}
-		if depth == 0 && len(seq) > 0 && !mustOpen {
-			emit(seq)
-		}
-		if len(seq) == structMax || failed {
-			return
-		}
-		for x, m := range stmtMacros {
-			switch {
-			case mustOpen && m.tok != "{":
-				continue
-			case m.tok == "{":
-				if len(seq) == 0 || !openers[stmtMacros[seq[len(seq)-1]].tok] {
-					continue
-				}
-				rec(append(append([]int{}, seq...), x), depth+1)
-			case m.tok == "}":
-				if depth > 0 {
-					rec(append(append([]int{}, seq...), x), depth-1)
-				}
-			default:
-				rec(append(append([]int{}, seq...), x), depth)
-			}
-		}
-	}
-	rec(nil, 0)
 	flush()
 	if failed {
 		return
